@@ -139,6 +139,10 @@ def run(ck):
                       "note": "the session model and the implementation differ (or an obligation no longer checks) although every "
                               "interleaving gave each file the answers of its own history"}, nofail=True)
     ck.extra["input_distribution"] = dist
+    # second layer: the three REAL handle tables (MLL cgns_files[], cgio iolist, ADF_file[]) as Coq models with
+    # theorems about handle validity, tied state by state (checks/C16b.py, notes/C16b.md)
+    from checks import C16b
+    C16b.run_extra(ck)
 
 
 def replay(ck, path):
